@@ -27,13 +27,15 @@ impl<A: reactive_mutiny::ogre_std::ogre_alloc::BoundedOgreAllocator<u32> + Send 
 /// what a listener received: the value and an identity of the shared allocation
 type Got = (u32, usize, Box<dyn Held>);
 
-trait PollS: Send { fn poll(&mut self) -> Option<Got>; }
+trait PollS: Send { fn poll(&mut self) -> Option<Got>; /// `Some(None)` = end of stream, `None` = pending
+    fn poll_w(&mut self, w: &Waker) -> Option<Option<u32>>; }
 trait MultiApi: Send + Sync {
     fn send(&self, v: u32) -> bool;
     fn create(&self) -> (Box<dyn PollS>, u32);
     fn running(&self) -> u32;
     fn buffer(&self) -> usize;
     fn cancel(&self, id: u32);
+    fn cancel_all(&self);
 }
 struct W<C: 'static>(&'static Arc<C>);
 struct S<St>(St);
@@ -46,12 +48,17 @@ macro_rules! multi_impl {
             fn running(&self) -> u32 { self.0.running_streams_count() }
             fn buffer(&self) -> usize { $n }
             fn cancel(&self, id: u32) { self.0.verif_streams_manager().cancel_stream(id) }
+            fn cancel_all(&self) { self.0.cancel_all_streams() }
         }
         impl PollS for S<reactive_mutiny::mutiny_stream::MutinyStream<'static, u32, $ty, $item>> {
             fn poll(&mut self) -> Option<Got> {
                 let w: Waker = Arc::new(NoWake).into();
                 let mut cx = Context::from_waker(&w);
                 match Pin::new(&mut self.0).poll_next(&mut cx) { Poll::Ready(Some(it)) => Some(($conv)(it)), _ => None }
+            }
+            fn poll_w(&mut self, w: &Waker) -> Option<Option<u32>> {
+                let mut cx = Context::from_waker(w);
+                match Pin::new(&mut self.0).poll_next(&mut cx) { Poll::Ready(Some(it)) => { let g: Got = ($conv)(it); let v = g.0; drop(g); Some(Some(v)) }, Poll::Ready(None) => Some(None), Poll::Pending => None }
             }
         }
     };
@@ -77,6 +84,9 @@ fn make(kind: &str, m: usize) -> Arc<dyn MultiApi> {
     match m { 1 => mk!(1), 2 => mk!(2), _ => mk!(4) }
 }
 
+fn filter_cancel(tag: &str) -> bool {
+    filter(tag) || matches!(tag, "sm.cancelall.read" | "sm.cancel" | "sm.flag" | "sm.reg.cmp" | "sm.reg.lock" | "sm.reg.store" | "sm.reg.selfwake" | "sm.wake" | "sm.wake.lock" | "sm.wake.retry")
+}
 fn filter(tag: &str) -> bool {
     matches!(tag, "sm.create.count" | "sm.create.vacant" | "sm.create.flag" | "sm.drop.count" | "sm.drop.vacant" | "sm.sync.lock" | "sm.sync.peek"
                 | "sm.sync.write" | "sm.sync.sentinel" | "sm.running" | "mc.fan.read" | "ms.poll" | "mc.drop.drain" | "sync.spin")
@@ -152,6 +162,120 @@ fn release_some(ctx: &sched::Ctx, sh: &Mutex<Shared>, lt: usize, only: Option<u3
     let mut g = sh.lock().unwrap();
     keep.extend(std::mem::take(&mut g.handles));
     g.handles = keep;
+}
+
+struct FlagWaker(std::sync::atomic::AtomicBool);
+impl Wake for FlagWaker {
+    fn wake(self: Arc<Self>) { self.0.store(true, SeqCst) }
+    fn wake_by_ref(self: &Arc<Self>) { self.0.store(true, SeqCst) }
+}
+
+/// C07 on a Multi channel: 2-3 listeners driven by tasks that are polled only while notified; one thread removes a listener,
+/// another calls `cancel_all_streams()`, a producer may be sending.  Oracle: at quiescence every listener that was not
+/// removed has ended (a listener left parked, un-notified and not ended was never told to end).
+fn run_cancelall(kind: &str, seed: u64, replay: Option<Vec<u8>>) -> (sched::Outcome, Vec<(String, String)>, String, String) {
+    let mut rng = Rng::new(seed ^ 0xCA11);
+    let ch = make(kind, 4);
+    let k = rng.range(2, 3) as usize;
+    let victim = rng.below(k as u64) as usize;           // the listener that is removed meanwhile
+    let nsend = rng.below(3) as usize;
+    let cfgkey = format!("{kind}/cancelall/k{k}v{victim}s{nsend}");
+    struct Task { stream: Option<std::mem::ManuallyDrop<Box<dyn PollS>>>, sid: u32, flag: Arc<FlagWaker>, parked: bool, ended: bool, removed: bool }
+    let tasks: Arc<Mutex<Vec<Task>>> = Arc::new(Mutex::new((0..k).map(|_| { let (s, sid) = ch.create();
+        Task { stream: Some(std::mem::ManuallyDrop::new(s)), sid, flag: Arc::new(FlagWaker(std::sync::atomic::AtomicBool::new(true))), parked: false, ended: false, removed: false } }).collect()));
+    let done = Arc::new(AtomicUsize::new(0));
+    let spans: Arc<Mutex<Vec<(String, usize, usize)>>> = Arc::new(Mutex::new(vec![]));     // (what, call line, return line)
+    let mut bodies: Vec<Body> = vec![];
+    // listener tasks
+    for li in 0..k {
+        let (tasks, done) = (tasks.clone(), done.clone());
+        bodies.push(Box::new(move |ctx| {
+            let lt = 10 + li;
+            loop {
+                let (t2, d2) = (tasks.clone(), done.clone());
+                ctx.block_until(Box::new(move || { let g = t2.lock().unwrap(); g[li].removed || g[li].ended || g[li].flag.0.load(SeqCst) || d2.load(SeqCst) >= 3 }));
+                let (mut s, flag, sid) = { let mut g = tasks.lock().unwrap(); if g[li].removed || g[li].ended || !g[li].flag.0.load(SeqCst) { break }
+                    match g[li].stream.take() { Some(s) => (s, g[li].flag.clone(), g[li].sid), None => break } };
+                flag.0.store(false, SeqCst);
+                ctx.call(lt, &format!("poll {sid}"));
+                let w: Waker = flag.clone().into();
+                let r = s.poll_w(&w);
+                let mut g = tasks.lock().unwrap();
+                g[li].stream = Some(s);
+                match r {
+                    Some(Some(v)) => { g[li].parked = false; g[li].flag.0.store(true, SeqCst); drop(g); ctx.ret(&format!("item {v}")); }
+                    Some(None) => { g[li].ended = true; drop(g); ctx.ret("end"); }
+                    None => { g[li].parked = true; drop(g); ctx.ret("pending"); }
+                }
+            }
+        }));
+    }
+    // the thread removing one listener (waits until that listener's task is not inside a poll)
+    {
+        let (tasks, done, spans) = (tasks.clone(), done.clone(), spans.clone());
+        bodies.push(Box::new(move |ctx| {
+            for _ in 0..ctx.rand(4) { ctx.yield_point("h.delay", 0); }
+            // (being made runnable is not being run: the listener's task may have started another poll meanwhile)
+            let (mut s, sid) = loop {
+                let t2 = tasks.clone();
+                ctx.block_until(Box::new(move || t2.lock().unwrap()[victim].stream.is_some()));
+                let mut g = tasks.lock().unwrap();
+                if let Some(s) = g[victim].stream.take() { g[victim].removed = true; break (s, g[victim].sid) }
+            };
+            let c = ctx.call(20, &format!("drop {sid}"));
+            unsafe { std::mem::ManuallyDrop::drop(&mut s); }
+            let r = ctx.ret("unit");
+            spans.lock().unwrap().push((format!("drop {sid}"), c, r));
+            done.fetch_add(1, SeqCst);
+        }));
+    }
+    // the thread ending all streams
+    {
+        let (ch, done, spans) = (ch.clone(), done.clone(), spans.clone());
+        bodies.push(Box::new(move |ctx| {
+            for _ in 0..ctx.rand(6) { ctx.yield_point("h.delay", 0); }
+            let c = ctx.call(21, "cancelall");
+            ch.cancel_all();
+            let r = ctx.ret("unit");
+            spans.lock().unwrap().push(("cancelall".into(), c, r));
+            done.fetch_add(1, SeqCst);
+        }));
+    }
+    // a producer
+    {
+        let (ch, done) = (ch.clone(), done.clone());
+        bodies.push(Box::new(move |ctx| {
+            for i in 0..nsend { ctx.call(1, &format!("send {}", 1000 + i)); let ok = ch.send(1000 + i as u32); ctx.ret(if ok { "unit" } else { "full" }); }
+            done.fetch_add(1, SeqCst);
+        }));
+    }
+    let mut cfg = Config::new(seed, filter_cancel);
+    cfg.replay = replay;
+    let outcome = sched::run(cfg, bodies);
+    let mut viol = vec![];
+    if outcome.verdict != Verdict::Completed { viol.push(("no_progress".into(), format!("{:?}", outcome.verdict))); }
+    for (i, p) in outcome.panics.iter().enumerate() { if let Some(m) = p { viol.push(("panic".into(), format!("thread {i} panicked: {}", &m[..m.len().min(200)]))); } }
+    if outcome.verdict == Verdict::Completed {
+        let g = tasks.lock().unwrap_or_else(|e| e.into_inner());
+        let sp = spans.lock().unwrap_or_else(|e| e.into_inner());
+        let ca = sp.iter().find(|x| x.0 == "cancelall").cloned();
+        let dr = sp.iter().find(|x| x.0.starts_with("drop")).cloned();
+        let vsid = g[victim].sid;
+        for (li, t) in g.iter().enumerate() {
+            if !t.removed && !t.ended {
+                // cause class: what of the removal fell inside the cancel_all call?
+                let cause = match (&ca, &dr) {
+                    (Some(c), Some(d)) if d.1 <= c.2 && d.2 >= c.1 => {
+                        let writes_inside = outcome.trace[c.1..=c.2.min(outcome.trace.len() - 1)].iter().any(|l| l.starts_with("pt 20 sm.sync.write") || l.starts_with("pt 20 sm.sync.sentinel"));
+                        if vsid < t.sid && writes_inside { "list_rewritten_during_cancel_all_by_removal_of_lower_id" } else if vsid < t.sid { "removal_of_lower_id_in_progress_but_list_not_touched_during_cancel_all" } else { "removal_of_higher_id_in_progress" } }
+                    _ => "no_removal_overlaps_cancel_all" };
+                viol.push(("cancelled_stream_never_ended".into(), format!("Multi {kind}: cancel_all_streams() returned, yet listener #{li} (stream id {}) is parked, un-notified and never ended (listener with stream id {vsid} was being removed) [cause={cause}]", t.sid)));
+            }
+        }
+    }
+    let cfg = format!("cfg model=none kind={kind}");
+    std::mem::forget(ch);
+    (outcome, viol, cfgkey, cfg)
 }
 
 fn run_one(kind: &str, sub: &str, seed: u64, replay: Option<Vec<u8>>) -> (sched::Outcome, Vec<(String, String)>, String, String) {
@@ -373,17 +497,20 @@ fn main() {
     for i in 0..runs {
         let seed = if a.kv.contains_key("seedx") { a.num("seedx", 0) } else { seed0.wrapping_mul(1_000_003).wrapping_add(i) };
         mark_run(seed);
-        let (o, viol, cfgkey, cfg) = run_one(&kind, &sub, seed, single.clone());
+        let (o, viol, cfgkey, cfg) = if sub == "cancelall" { run_cancelall(&kind, seed, single.clone()) } else { run_one(&kind, &sub, seed, single.clone()) };
         let nontrivial = match sub.as_str() {
             "hist" => o.trace.iter().filter(|l| l.contains(" drop ")).count() > 0 && o.trace.iter().filter(|l| l.contains(" create")).count() > 1,
             "churn" => { // a bookkeeping step of the churn thread between two fan-out steps of a send
                 let mut in_fan = false; let mut hit = false;
                 for l in &o.trace { if l.contains(" mc.fan.read ") || l.contains(" sm.running ") { in_fan = true } else if l.starts_with("ret ") && l.ends_with(" unit") && !l.starts_with("ret 20") { in_fan = false } else if in_fan && l.starts_with("pt 20 ") { hit = true } }
                 hit }
+            "cancelall" => { let c = o.trace.iter().position(|l| l == "call 21 cancelall"); let d = o.trace.iter().position(|l| l.starts_with("call 20 drop"));
+                             let cr = o.trace.iter().position(|l| l == "ret 21 unit"); let dr = o.trace.iter().position(|l| l == "ret 20 unit");
+                             matches!((c, cr, d, dr), (Some(c), Some(cr), Some(d), Some(dr)) if d <= cr && dr >= c) }
             _ => o.trace.iter().filter(|l| l.contains(" mc.fan.read ")).count() > 1,
         };
         rep.add_run(&o.trace, nontrivial, &cfgkey, &format!("{:?}", o.verdict));
-        out.write_run(&format!("{cfg} seed={seed} run={i}"), &o.trace);
+        if sub != "cancelall" { out.write_run(&format!("{cfg} seed={seed} run={i}"), &o.trace); }
         for (k, d) in viol {
             let header = vec![format!("cmd multi kind={kind} sub={sub} runs=1 seedx={seed} choices={}", choices_str(&o.choices)), format!("violation {k}: {d}"), cfg.clone()];
             let path = write_replay(&replay_dir, &format!("{pid}-multi-{kind}-{sub}-seed{seed}-{k}"), &header, &o.trace);
